@@ -1,0 +1,83 @@
+//go:build verif
+
+// Contracts for property C07 (diagnostics point at the exact source position): linear arithmetic
+// from the position of a token inside a ${{ }} placeholder, or of a character inside a glob
+// pattern, to the line:column of the reported error. Verified by govc.
+
+package actionlint
+
+//@ func convertExprLineColToPos
+//@   props C07
+//@   anchor
+//@   ensures result.Line == line - 1 + lineBase && result.Col == col - 1 + colBase
+
+// every reporting primitive records exactly the position it is given
+//@ func errorAt
+//@   props C07
+//@   ensures result.Line == pos.Line && result.Column == pos.Col
+//@ func errorfAt
+//@   props C07
+//@   ensures result.Line == pos.Line && result.Column == pos.Col
+//@ func (*RuleBase).Error
+//@   props C07
+//@   ensures len(r.errs) == old(len(r.errs)) + 1
+//@   ensures r.errs[old(len(r.errs))].Line == pos.Line && r.errs[old(len(r.errs))].Column == pos.Col
+//@ func (*RuleBase).Errorf
+//@   props C07
+//@   ensures len(r.errs) == old(len(r.errs)) + 1
+//@   ensures r.errs[old(len(r.errs))].Line == pos.Line && r.errs[old(len(r.errs))].Column == pos.Col
+
+// an expression error at 1-based (Line, Column) inside the placeholder text is reported at
+// (lineBase + Line - 1, colBase + Column - 1)
+//@ func (*RuleExpression).exprError
+//@   props C07
+//@   anchor
+//@   at_call (*RuleBase).Error: pos.Line == err.Line - 1 + lineBase && pos.Col == err.Column - 1 + colBase
+
+// the text handed to the lexer is the suffix of the scalar starting right after "${{", and the
+// column handed over is the column of its first character: scalar column (+1 when quoted) + byte
+// offset of that character in the scalar. It does not depend on the number of earlier placeholders.
+//@ func (*RuleExpression).checkExprsIn
+//@   props C07
+//@   anchor
+//@   loop "for":
+//@     invariant 0 <= offset && offset <= len(s0) && s == s0[offset..len(s0)]
+//@     at_call (*RuleExpression).checkSemantics: line == pos.Line
+//@     at_call (*RuleExpression).checkSemantics: src == s0[offset..len(s0)]
+//@     at_call (*RuleExpression).checkSemantics: (quoted ==> col == pos.Col + 1 + offset) && (!quoted ==> col == pos.Col + offset)
+
+//@ func (*RuleExpression).checkSemantics
+//@   props C07
+//@   anchor
+//@   at_call (*RuleExpression).exprError: lineBase == line0 && colBase == col0
+//@   at_call (*RuleExpression).checkSemanticsOfExprNode: line == line0 && col == col0
+
+// glob errors: scalar column (+1 when quoted) + (in-pattern column - 1)
+//@ func (*RuleGlob).globErrors
+//@   props C07
+//@   anchor
+//@   loop "range errs":
+//@     at_call (*RuleBase).Errorf: pos.Line == pos0.Line && (quoted && err.Column != 0 ==> pos.Col == pos0.Col + 1 + err.Column - 1) && (quoted && err.Column == 0 ==> pos.Col == pos0.Col + 1) && (!quoted && err.Column != 0 ==> pos.Col == pos0.Col + err.Column - 1) && (!quoted && err.Column == 0 ==> pos.Col == pos0.Col)
+
+// parser diagnostics carry the position of the YAML node / key they are about
+//@ func posAt
+//@   props C07
+//@   ensures result.Line == n.Line && result.Col == n.Column
+//@ func (*parser).error
+//@   props C07
+//@   ensures p.errors[old(len(p.errors))].Line == n.Line && p.errors[old(len(p.errors))].Column == n.Column
+//@ func (*parser).errorAt
+//@   props C07
+//@   ensures p.errors[old(len(p.errors))].Line == pos.Line && p.errors[old(len(p.errors))].Column == pos.Col
+//@ func (*parser).errorf
+//@   props C07
+//@   at_call (*parser).error: n == n0
+//@ func (*parser).errorfAt
+//@   props C07
+//@   at_call (*parser).errorAt: pos == pos0
+//@ func (*parser).unexpectedKey
+//@   props C07 C13
+//@   at_call (*parser).errorAt: pos == s.Pos
+//@ func newString
+//@   props C07
+//@   ensures result.Pos.Line == n.Line && result.Pos.Col == n.Column && result.Value == n.Value
